@@ -309,3 +309,105 @@ func (c *fctx) captureCheck(x *ast.FuncLit, except map[types.Object]bool) {
 		return true
 	})
 }
+
+// ---------------------------------------------------------------- goto found
+
+// The one supported use of goto: a SEARCH LOOP that jumps over the statements following it,
+//
+//	for _, x := range xs { if cond(x) { goto found } }
+//	S...                       // skipped when some element satisfies cond
+//	found:
+//	T...
+//
+// where the loop body is exactly that if (no else, no initialiser), the label stands later in
+// the same statement list and is the target of this goto only.  It becomes
+//
+//	if existsb (fun x => cond x) xs then T... else S...; T...
+//
+// searchGoto returns the index of the labelled statement in rest (-1: not this pattern).
+func (c *fctx) searchGoto(s *ast.RangeStmt, rest []ast.Stmt) int {
+	br := searchLoopGoto(s)
+	if br == nil {
+		return -1
+	}
+	lab := c.info.Uses[br.Label]
+	for j, r := range rest {
+		if ls, ok := r.(*ast.LabeledStmt); ok && c.info.Defs[ls.Label] == lab && lab != nil {
+			// the label must have no other goto
+			uses := 0
+			ast.Inspect(c.u.decl.Body, func(n ast.Node) bool {
+				if id, ok := n.(*ast.Ident); ok && c.info.Uses[id] == lab {
+					uses++
+				}
+				return true
+			})
+			if uses != 1 {
+				return -1
+			}
+			return j
+		}
+	}
+	return -1
+}
+
+// searchLoopGoto: the goto of  for .. range .. { if cond { goto L } }  (nil if s has another shape).
+func searchLoopGoto(s *ast.RangeStmt) *ast.BranchStmt {
+	if len(s.Body.List) != 1 {
+		return nil
+	}
+	ifs, ok := s.Body.List[0].(*ast.IfStmt)
+	if !ok || ifs.Init != nil || ifs.Else != nil || len(ifs.Body.List) != 1 {
+		return nil
+	}
+	br, ok := ifs.Body.List[0].(*ast.BranchStmt)
+	if !ok || br.Tok != token.GOTO || br.Label == nil {
+		return nil
+	}
+	return br
+}
+
+// gotoOK: the goto and label nodes of all search-loop patterns of the function.
+func (c *fctx) gotoOK() map[ast.Node]bool {
+	if c.gotos != nil {
+		return c.gotos
+	}
+	c.gotos = map[ast.Node]bool{}
+	ast.Inspect(c.u.decl.Body, func(n ast.Node) bool {
+		var list []ast.Stmt
+		switch b := n.(type) {
+		case *ast.BlockStmt:
+			list = b.List
+		case *ast.CaseClause:
+			list = b.Body
+		}
+		for i, st := range list {
+			if rs, ok := st.(*ast.RangeStmt); ok {
+				if j := c.searchGoto(rs, list[i+1:]); j >= 0 {
+					c.gotos[searchLoopGoto(rs)] = true
+					c.gotos[list[i+1+j]] = true
+				}
+			}
+		}
+		return true
+	})
+	return c.gotos
+}
+
+func (c *fctx) searchGotoStmt(s *ast.RangeStmt, rest []ast.Stmt, j int, k func() string) string {
+	ifs := s.Body.List[0].(*ast.IfStmt)
+	if c.needsFuel(ifs.Cond) {
+		c.fail(ifs.Cond.Pos(), "search-loop condition that calls a function with fuel")
+	}
+	items, pat := c.rangeItems(s)
+	saved := c.copyEnv()
+	p := pat()
+	cond := c.expr(ifs.Cond)
+	c.env = copyMap(saved)
+	lab := rest[j].(*ast.LabeledStmt)
+	tail := append([]ast.Stmt{lab.Stmt}, rest[j+1:]...)
+	fromLabel := func() string { return c.stmts(tail, k) }
+	a := fromLabel()
+	c.env = copyMap(saved)
+	b := c.stmts(rest[:j], fromLabel)
+	return fmt.Sprintf("if (existsb (fun %s => %s) %s)\nthen\n%s\nelse\n%s", p, cond, items, indent(a, "  "), indent(b, "  "))
+}
